@@ -5,7 +5,7 @@
     Definitions only. *)
 From Coq Require Import List NArith ZArith Bool.
 From Coq.Strings Require Import Byte.
-From RDPGW Require Import Lib.Bytes.
+From RDPGW Require Import Lib.Bytes Gen.Consts.
 Import ListNotations.
 Open Scope Z_scope.
 
@@ -27,7 +27,7 @@ Inductive nout :=
 | OAuthOK (user : bytes)                 (* Authenticated = true, Username = user *)
 | ONotAuth.                              (* no error, not authenticated, no message *)
 
-Definition expiry : Z := 60.             (* cacheExpiration = time.Minute *)
+Definition expiry : Z := Z.of_N ntlm_cacheExpiration_SECONDS.   (* cacheExpiration, regenerated from the source *)
 
 (** One cached context: creation time and the challenge of its server session. *)
 Record nctx := { n_created : Z; n_chal : option N }.
